@@ -60,6 +60,12 @@ fn check_pair(a: u32, d: u32) -> u32 {
     if (ta == b) != (ab == Ordering::Equal) || (a == want_sum) != (ta == b) {
         bad |= 1 << 5;
     }
+    // a timestamp that came out of arithmetic is the same timestamp as one constructed from the
+    // number: equal under ==, in both operand orders, and Equal under cmp
+    let bd = RtmpTimestamp::new(want_diff);
+    if !(sum == b && b == sum && diff == bd && bd == diff && (sum - d) == ta && (diff + d) == ta) || sum.cmp(&b) != Ordering::Equal || diff.cmp(&bd) != Ordering::Equal || sum != want_sum || diff != want_diff {
+        bad |= 1 << 5;
+    }
     if ab != ba.reverse() {
         bad |= 1 << 6;
     }
